@@ -46,6 +46,8 @@ type cpFile struct {
 	Label    string
 	Header   ledger.CatchpointFileHeader
 	Sections []cpSection
+	// KVReordered: the producer's kv records were not in key order (see canonKVOrder)
+	KVReordered bool
 }
 
 func isBalancesSection(name string) bool {
@@ -82,7 +84,48 @@ func readCatchpointFile(rc io.Reader) (*cpFile, error) {
 	}
 	f.Round = f.Header.BlocksRound
 	f.Label = f.Header.Catchpoint
+	if err := f.canonKVOrder(); err != nil {
+		return nil, err
+	}
 	return f, nil
+}
+
+// canonKVOrder sorts the kv records of the file by key (keeping the chunk sizes). The producer writes
+// them in kvstore rowid order (catchpointfilewriter.go MakeKVsIter has no ORDER BY), and rowids follow
+// the iteration order of the Go map of kv deltas in accountsNewRound: the same history gives files whose
+// kv records are permuted from process to process. The order carries no meaning for the consumer (rows
+// keyed by key, trie = set of leaves); fixing it keeps every harness choice that indexes a kv record or
+// a byte offset reproducible.
+func (f *cpFile) canonKVOrder() error {
+	var all []encoded.KVRecordV6
+	var idx []int
+	var chunks []ledger.CatchpointSnapshotChunkV6
+	for i, s := range f.Sections {
+		if !isBalancesSection(s.Name) {
+			continue
+		}
+		c, err := decodeChunk(s.Data)
+		if err != nil {
+			return err
+		}
+		if len(c.KVs) > 0 {
+			all = append(all, c.KVs...)
+			idx = append(idx, i)
+			chunks = append(chunks, c)
+		}
+	}
+	if sort.SliceIsSorted(all, func(i, j int) bool { return bytes.Compare(all[i].Key, all[j].Key) < 0 }) {
+		return nil
+	}
+	sort.Slice(all, func(i, j int) bool { return bytes.Compare(all[i].Key, all[j].Key) < 0 })
+	f.KVReordered = true
+	for k, i := range idx {
+		n := len(chunks[k].KVs)
+		chunks[k].KVs = all[:n]
+		all = all[n:]
+		f.Sections[i] = cpSection{Name: f.Sections[i].Name, Data: encodeChunk(&chunks[k])}
+	}
+	return nil
 }
 
 // cpTar serialises sections as the tar stream the fetcher reads.
